@@ -191,7 +191,7 @@ def gen_cell(rseed: int, tier: str) -> Dict[str, Any]:
     cell = {
         "doc": doc, "doc_name": docs[doc]["name"], "text": docs[doc]["text"],
         "bom": g.random() < 0.5,
-        "ap": g.random() < 0.5, "rend": g.choice(["default", "tagged", "tagged", "bare"]),
+        "ap": g.random() < 0.5, "rend": g.choice(["default", "tagged", "nested", "nested", "bare"]),
         "chunk": f.choice([1, 2, 3, 7, 4096, 1 << 20]), "bufsize": f.choice([1, 2, 5, 16, 8192]),
         "default_encoding": f.choice(["ascii", "latin-1", "cp1252", "utf-8"]),
         "file_encoding_by_caller": f.choice(["utf8", "utf8", "utf8", "utf-8-sig", "latin-1", "cp1252", "utf-16"]),
@@ -276,7 +276,7 @@ def execute_cell(cell: Dict[str, Any], tmp: str) -> Dict[str, Any]:
         else:
             stats["fault:real-filesystem-run"] = 1
         kw: Dict[str, Any] = {"allow_properties": cell["ap"]}
-        custom = cell["rend"] in ("tagged", "bare")
+        custom = cell["rend"] in E1.CUSTOM
         if custom:
             kw["sql_renderer"], kw["dbml_renderer"] = st["renderers"][cell["rend"]]
         pos: Tuple[Any, ...] = ()
@@ -401,15 +401,17 @@ def execute_cell(cell: Dict[str, Any], tmp: str) -> Dict[str, Any]:
                 results[route] = ["other", type(res).__name__]
                 viol("route:not-a-database:" + route, {**ctx, "got": type(res).__name__})
                 continue
-            full = not (route in OPT_ROUTES and custom)
+            rend_eff = cell["rend"] if route in OPT_ROUTES else "default"
+            full = rend_eff in E1.RENDERED
+            wi = E1.WANT.get(rend_eff, 1)
             dig, snap = E1.content_digest(res, full)
             results[route] = ["db", dig]
             if want[0] != "db":
                 viol("route:invalid-doc-returned-db:" + route, {**ctx, "reference": want})
                 continue
-            if dig != want[2 if full else 1]:
+            if dig != want[wi]:
                 viol(("route:partial-read-returned-db:" if eio_here else "route:differs-from-reference:") + route,
-                     {**ctx, "want": want[2 if full else 1], "got": dig, "got_summary": E1.summary(snap)})
+                     {**ctx, "want": want[wi], "got": dig, "got_summary": E1.summary(snap)})
                 continue
             if route in OPT_ROUTES:
                 wq = st["renderers"][cell["rend"]] if custom else None
